@@ -34,7 +34,13 @@ func CreateListener(network, addr string) (l Listener, err error) {
 	if err != nil {
 		return nil, err
 	}
-	return ConvertListener(ln)
+	l, err = ConvertListener(ln)
+	if err != nil {
+		// ConvertListener takes ln over only when it succeeds, and nobody else knows ln
+		ln.Close()
+		return nil, err
+	}
+	return l, nil
 }
 
 // ConvertListener converts net.Listener to Listener
